@@ -996,8 +996,8 @@ pub fn emit_shape(out: &mut String, ident: &str, g: &GShape) {
     let s = g.ty;
     let _ = write!(
         out,
-        "pub static {ident}: Shape = Shape{{name:{:?},ctx:{},ops:&{ident}_OPS,nkeys:{},nhash:{},hashkind:{:?},nabs:{},abs:{},nrel:{},rel:{},ty:S{{base:{},z:{},o:{},n:{},d:{},u:{},f:{},e:{},s:{},m:{}}},sane:{},liftable:{},policy:&{ident}_POL,lockvecs:&{:?},wits:&{ident}_WITS,rows:&{ident}_ROWS,has_desc:{},fig:Figures{{",
-        g.name, g.ctx, g.nkeys, g.hashkinds.len(), hk, g.abs.len(), pad2(&g.abs), g.rel.len(), pad2(&g.rel), s.base, s.z, s.o, s.n, s.d, s.u, s.f, s.e, s.s, s.m, g.sane, g.liftable, g.lockvecs, g.has_desc
+        "pub static {ident}: Shape = Shape{{name:{:?},ctx:{},ops:&{ident}_OPS,nkeys:{},nhash:{},hashkind:{:?},nabs:{},abs:{},nrel:{},rel:{},ty:S{{base:{},z:{},o:{},n:{},d:{},u:{},f:{},e:{},s:{},m:{}}},sane:{},liftable:{},policy:&{ident}_POL,lockvecs:&{:?},wits:&{ident}_WITS,rows:&{ident}_ROWS,has_desc:{},satisfiable:{},fig:Figures{{",
+        g.name, g.ctx, g.nkeys, g.hashkinds.len(), hk, g.abs.len(), pad2(&g.abs), g.rel.len(), pad2(&g.rel), s.base, s.z, s.o, s.n, s.d, s.u, s.f, s.e, s.s, s.m, g.sane, g.liftable, g.lockvecs, g.has_desc, g.rows.iter().any(|r| g.wits[r.w[1]].kind == 0)
     );
     for (k, v) in &g.fig {
         let _ = write!(out, "{k}:{v},");
